@@ -71,7 +71,12 @@ def flat_index_pair(spec, z_a, z_b, rho=None):
         # equal depths: the connecting ray rises rho^2 |n'| / (8 n) above them; when that
         # is below the floating-point resolution of the depth the index is flat for it
         rise = rho * rho * spec["k"] * spec["a"] * math.exp(spec["a"] * z_a) / (8 * n_a)
-        return rise < 16 * math.ulp(abs(z_a) + 1.0)
+        if rise < 16 * math.ulp(abs(z_a) + 1.0):
+            return True
+    if z_a == z_b and 2 * spec["k"] * math.exp(spec["a"] * z_a) < 1e-9 * spec["n0"]:
+        # equal depths so deep that alpha = n0^2 - beta^2 of the connecting (horizontal) ray is
+        # below 1e-9 n0^2: formed by subtraction it keeps fewer than seven digits (same finding)
+        return True
     return False
 
 
